@@ -54,6 +54,9 @@ def gen(ctx, tier, rng):
             scripts.append(run)                      # all rejected: loop must keep drawing (script exhausted)
         for sc in scripts:
             L.append("rng.uniform %d %s" % (n, ",".join(str(x) for x in sc) if sc else "-"))
+    for h in (1, 2, 3):
+        L.append("rng.uniform.h%d 10 7,3" % h)
+        L.append("rng.uniform.h%d 1000003 4294967295,5,12345" % h)
     L.append("rng.uniform 0 -")
     L.append("rng.uniform 1 -")
     for n in (range(0, 1101) if full else list(range(0, 200)) + list(range(200, 1101, 7)) + [1023, 1024, 1025]):
@@ -75,6 +78,8 @@ def gen(ctx, tier, rng):
                 s2 = bytearray(script)
                 s2[i] ^= 1 << rng.randrange(8)
                 L.append("rng.gen %s %s%s" % (api, hexs(bytes(s2)), tail))
+            for h in (1, 2, 3):      # the same generation after close / stir / both on the installed source (multi-step history)
+                L.append("rng.gen.h%d %s %s%s" % (h, api, hexs(script), tail))
             L.append("rng.gen %s %s%s" % (api, hexs(script[:n]), tail))          # exactly enough
             L.append("rng.gen %s %s%s" % (api, hexs(script[:n - 1]), tail))      # one byte short: EXHAUSTED must be reported
     # scalar_random: rejection of non-canonical (>= L) and zero draws
